@@ -613,6 +613,7 @@ class SSHChannel(Generic[AnyStr], SSHPacketHandler):
                 # An EOF which was waiting for this data to be delivered
                 # is reported as well
                 if self._session is not None and not exc and \
+                        self._session_started and \
                         (self._recv_state == 'eof_pending' or
                          (self._recv_state == 'close_pending' and
                           self._recv_eof_on_close)):
